@@ -29,6 +29,7 @@ func init() {
 	verifKinds["c04.results"] = verifC04Results
 	verifKinds["c04.flow"] = verifC04Flow
 	verifKinds["c04.run"] = verifC04Run
+	verifKinds["c04.srvexit"] = verifC04SrvExit
 	verifKinds["c04.peer"] = verifC04Peer
 }
 
@@ -404,7 +405,42 @@ func c04Pattern(model string) string {
 	return model[:i] + "/**/" + model[i+1:]
 }
 
-func verifC04Run(args []vsx) vsx {
+func verifC04Run(args []vsx) vsx { return c04RunInner(args, -1) }
+
+// c04.srvexit: (known-failing) (known-flaky) ((name reply) ...) k — one batch through the real Run()
+// in server mode with the server under test as a real OS process (cmdProcess of process.go) that
+// exits with STATUS 0 while the runner is about to send the request with index k.  The schedule is
+// forced through the runner's own "Sending request for ..." log line (VeryVerbose): the printer blocks
+// there, tells the server child to exit, waits until the process has been reaped and one more second
+// for the runner's whenDone callback.  The check of the server's fate precedes that log line, so the
+// requests 0..k are sent; every later case must end as a set-up error.
+func verifC04SrvExit(args []vsx) vsx {
+	if len(args) != 4 || args[3].i < 0 || int(args[3].i) >= len(args[2].l) {
+		return vL(vS("bad-case"))
+	}
+	inList := func(l []string, n string) bool {
+		for _, x := range l {
+			if x == n {
+				return true
+			}
+		}
+		return false
+	}
+	for _, c := range args[2].l {
+		if len(c.l) != 2 || c.l[1].i < 0 || c.l[1].i > 3 {
+			return vL(vS("bad-case"))
+		}
+		// all cases alike (reply and marking): which of them come after the exit is map order
+		first := args[2].l[0]
+		if c.l[1].i != first.l[1].i || inList(args[0].strs(), c.l[0].str()) != inList(args[0].strs(), first.l[0].str()) ||
+			inList(args[1].strs(), c.l[0].str()) != inList(args[1].strs(), first.l[0].str()) {
+			return vL(vS("bad-case"))
+		}
+	}
+	return c04RunInner([]vsx{args[0], args[1], vL(vL(vI(1), args[2])), vI(-1), vI(0)}, int(args[3].i))
+}
+
+func c04RunInner(args []vsx, srvExitAt int) vsx {
 	sc := c04ParseScenario(args)
 	if len(sc.batches) == 0 || len(sc.batches) > len(c04Instances) {
 		return vL(vS("bad-case")) // outside what this kind drives (no suites would mean the embedded ones)
@@ -492,6 +528,10 @@ func verifC04Run(args []vsx) vsx {
 	if boundary {
 		fmt.Fprintf(&script, "exitafter %d\n", sc.exitAfter)
 	}
+	srvExitFile := filepath.Join(dir, "srvexit")
+	if srvExitAt >= 0 {
+		fmt.Fprintf(&script, "srvexitfile %s\n", srvExitFile)
+	}
 	scriptFile := filepath.Join(dir, "script")
 	if err := os.WriteFile(scriptFile, []byte(script.String()), 0o600); err != nil {
 		panic(err)
@@ -526,12 +566,34 @@ func verifC04Run(args []vsx) vsx {
 		return []string{os.Args[0], "-test.run=^TestVerifC04Child$", "c04:" + role, scriptFile}
 	}
 	logPr, errPr := &c04Printer{}, &c04Printer{}
+	if srvExitAt >= 0 {
+		var sends atomic.Int64
+		logPr.hook = func(msg string) {
+			if !strings.HasPrefix(msg, "Sending request for ") || int(sends.Add(1)) != srvExitAt+1 {
+				return
+			}
+			_ = os.WriteFile(srvExitFile, nil, 0o600)
+			deadline := time.Now().Add(10 * time.Second)
+			for time.Now().Before(deadline) {
+				var pid int
+				if data, err := os.ReadFile(srvExitFile + ".pid"); err == nil {
+					_, _ = fmt.Sscanf(string(data), "%d", &pid)
+				}
+				if pid > 0 && syscall.Kill(pid, 0) != nil {
+					break // exited and reaped by the runner
+				}
+				time.Sleep(5 * time.Millisecond)
+			}
+			time.Sleep(time.Second)
+		}
+	}
 	ok, err := Run(&Flags{
 		ConfigFile:           cfgFile,
 		TestFiles:            files,
 		KnownFailingPatterns: patterns(sc.kf),
 		KnownFlakyPatterns:   patterns(sc.kfl),
-		Verbose:              verbose, // true: server instances in sorted order
+		VeryVerbose:          srvExitAt >= 0,
+		Verbose:              verbose || srvExitAt >= 0, // true: server instances in sorted order
 		ClientCommand:        child("client"),
 		ServerCommand:        child("server"),
 		MaxServers:           1,
@@ -576,6 +638,10 @@ func verifC04Run(args []vsx) vsx {
 		// the number of selected cases).
 		rep.l[1] = vI(rep.l[2].i + rep.l[3].i + rep.l[4].i + rep.l[5].i)
 	}
+	if srvExitAt >= 0 {
+		// the order of the cases inside a batch is map order: names by number only (the cases are alike)
+		rep.l[6], rep.l[7] = vInt(len(rep.l[6].l)), vInt(len(rep.l[7].l))
+	}
 	// Run does not expose report()'s own return value: the first field of the report part
 	// carries the verdict on both sides.
 	return vL(vBool(ok), vInt(status), rep)
@@ -599,6 +665,7 @@ func TestVerifC04Child(t *testing.T) {
 	replies := map[string]int64{}
 	servers := map[[2]int]bool{}
 	exitCode, exitAfter := 0, -1
+	srvExitFile := ""
 	for _, line := range strings.Split(string(data), "\n") {
 		var name string
 		var a, b, c int
@@ -606,6 +673,8 @@ func TestVerifC04Child(t *testing.T) {
 			replies[name] = int64(a)
 		} else if n, _ := fmt.Sscanf(line, "server %d %d %d", &a, &b, &c); n == 3 {
 			servers[[2]int{a, b}] = c != 0
+		} else if n, _ := fmt.Sscanf(line, "srvexitfile %s", &name); n == 1 {
+			srvExitFile = name
 		} else if n, _ := fmt.Sscanf(line, "exitafter %d", &a); n == 1 {
 			exitAfter = a
 		} else if n, _ := fmt.Sscanf(line, "exit %d", &a); n == 1 {
@@ -626,6 +695,17 @@ func TestVerifC04Child(t *testing.T) {
 		}
 		if err := internal.WriteDelimitedMessage(os.Stdout, &conformancev1.ServerCompatResponse{Host: "127.0.0.1", Port: 9}); err != nil {
 			os.Exit(3)
+		}
+		if srvExitFile != "" {
+			// exits with status 0 when told (see verifC04SrvExit)
+			_ = os.WriteFile(srvExitFile+".pid", []byte(fmt.Sprintf("%d\n", os.Getpid())), 0o600)
+			for i := 0; i < 12000; i++ {
+				if _, err := os.Stat(srvExitFile); err == nil {
+					os.Exit(0)
+				}
+				time.Sleep(5 * time.Millisecond)
+			}
+			os.Exit(0)
 		}
 		if exitAfter >= 0 {
 			// slow to stop (see verifC04Run)
